@@ -468,7 +468,7 @@ theorem tie_unique_job_hpp : Extracted.Kernels.FreeSrc_unique_job_hpp = Skeleton
 theorem tie_submit_hpp : Extracted.Kernels.FreeSrc_submit_hpp = Skeletons.FreeSrc_submit_hpp := rfl
 /-- the skeleton names what is caught: the handler is `catch(...)` with an empty body, the nothrow branch has no handler -/
 theorem SafeCall_catches_everything : Extracted.Kernels.SafeCall_Call =
-    "Call() { ifc (is_nothrow_invocable_v) { forward(_func)() } else { try { forward(_func)() } catch(...) {  } } }" := rfl
+    "Call() { ifc (is_nothrow_invocable_v) { forward<Invoke>(_func)() } else { try { forward<Invoke>(_func)() } catch(...) {  } } }" := rfl
 
 /-- T1: the CoreType flag sets of the attachment API: exactly the *Inline ones lack the Call bit -/
 theorem api_flags :
